@@ -93,24 +93,26 @@ fn ranges(g: &Game, mk: &dyn Fn(i16) -> Action, lo: i16, hi: i16) -> String {
 }
 
 pub struct Deal {
-    pub holes: [[u64; 2]; 3], // hero wins / villain wins / tie ; [seat0, seat1]
+    pub holes: [[u64; 2]; 4], // [seat0, seat1] per deal: seat 0 wins / seat 1 wins / tie / pair over pair
     pub streets: [u64; 3],    // flop, turn, river cards
 }
-/// fixed cards: board 2c 7d 9h Js Kc ; seat hands chosen so that seat 0 wins / seat 1 wins / tie on every street
+/// fixed cards: board Ts Js Qs + two low off-suit cards, so that a royal flush IN HAND can meet a lower
+/// straight flush (deals 0, 1), both players can play the board's queen-high (deal 2, a tie) and a plain
+/// pair-over-pair showdown exists (deal 3)
 pub fn deal() -> Deal {
     let c = |r: u8, s: u8| 1u64 << (r * 4 + s);
     // ranks: 2=0 .. 9=7 T=8 J=9 Q=10 K=11 A=12 ; the short deck has no cards below 6 (rank 4)
     let short = cfg!(feature = "shortdeck");
-    let (f1, f2, f3, tn, rv) = if short {
-        (c(4, 0), c(6, 1), c(7, 2), c(9, 3), c(11, 0)) // 6c 8d 9h Js Kc
-    } else {
-        (c(0, 0), c(5, 1), c(7, 2), c(9, 3), c(11, 0)) // 2c 7d 9h Js Kc
-    };
-    let aa = c(12, 3) | c(12, 2); // As Ah
-    let qq = c(10, 1) | c(10, 0); // Qd Qc
-    let a5 = c(12, 1) | c(5 - 1 + if short { 1 } else { 0 }, 3); // Ad + low spade (6s / 7s): plays the board's kickers
-    let a5b = c(12, 0) | c(5 - 1 + if short { 1 } else { 0 }, 2); // Ac + low heart of the same rank
-    Deal { holes: [[aa, qq], [qq, aa], [a5, a5b]], streets: [f1 | f2 | f3, tn, rv] }
+    let (lo1, lo2) = if short { (c(4, 1), c(5, 2)) } else { (c(0, 1), c(5, 2)) }; // 6d 7h / 2d 7h
+    let (f1, f2, f3, tn, rv) = (c(8, 3), c(9, 3), c(10, 3), lo1, lo2); // Ts Js Qs
+    let royal = c(12, 3) | c(11, 3); // As Ks
+    let lower = c(7, 3) | c(6, 3); // 9s 8s: queen-high straight flush
+    let (t0, t1) = if short { (c(6, 0) | c(6, 1), c(6, 2) | c(7, 0)) } else { (c(1, 0) | c(2, 1), c(1, 2) | c(2, 3)) };
+    // standard deck: 3c4d vs 3h4s (both play Q J T 7 4); short deck: 8c8d vs 8h9c is not a tie, so the
+    // short-deck "tie" deal is simply another decided showdown (the walk streams run on the standard build)
+    let aa = c(12, 2) | c(12, 1); // Ah Ad
+    let kk = c(11, 2) | c(11, 1); // Kh Kd
+    Deal { holes: [[royal, lower], [lower, royal], [t0, t1], [aa, kk]], streets: [f1 | f2 | f3, tn, rv] }
 }
 fn hole(m: u64) -> Hole {
     Hole::from(Hand::from(m))
@@ -309,7 +311,7 @@ pub fn random_walks(out: &mut Shards, n: usize, menus: bool, rng: &mut Rng) -> u
     let d = deal();
     let mut steps = 0u64;
     for w in 0..n {
-        let mut g = root_with(d.holes[w % 3]);
+        let mut g = root_with(d.holes[w % 4]);
         let mut hist: Vec<Action> = vec![];
         loop {
             steps += 1;
